@@ -49,10 +49,10 @@ enga_prop!(C01, "C01", profiles = CHECKED,
     assumptions = COMMON_ASSUME.to_vec());
 
 enga_prop!(C03A, "C03", profiles = CHECKED,
-    profile = { let mut p = Profile::base(); p.w_typed = 45; p.w_aligned = 35; p.w_bytes = 30; p.zero_pct = 12; p.w_fill = 10; p },
+    profile = { let mut p = Profile::base(); p.w_typed = 45; p.w_aligned = 35; p.w_bytes = 30; p.zero_pct = 12; p.w_fill = 10; p.huge = true; p },
     mode = Mode::default(),
     nontrivial = |c| c.contains("typed-recycled") || c.contains("typed-at-odd-cursor") || c.contains("zero-size-on-full"),
-    rule = "Engine A histories biased to typed/aligned allocations over a 38-type table (align 1..16, size 0..64, ZSTs, drop types) at every cursor residue; at each successful call: capacity law, offset alignment, address alignment when align <= maximum_alignment, zero-size requests succeed without consuming space. Non-trivial = a typed/aligned allocation served from a recycled segment, or at a cursor not aligned for T, or a zero-size request on a full arena",
+    rule = "Engine A histories biased to typed/aligned allocations over a 40-type table (align 1..16, size 0..64, ZSTs, drop types) at every cursor residue, with sizes over the whole u32 range (\"all n\": an Ok answer to a request near u32::MAX must still have the promised capacity); at each successful call: capacity law, offset alignment, address alignment when align <= maximum_alignment, zero-size requests succeed without consuming space. Non-trivial = a typed/aligned allocation served from a recycled segment, or at a cursor not aligned for T, or a zero-size request on a full arena",
     quick = 320_000, thorough = 10_000_000,
     assumptions = COMMON_ASSUME.to_vec());
 
@@ -81,7 +81,7 @@ enga_prop!(C10, "C10", profiles = CHECKED,
     assumptions = COMMON_ASSUME.to_vec());
 
 enga_prop!(C13A, "C13", profiles = CHECKED,
-    profile = { let mut p = Profile::base(); p.max_ops = 30; p.w_clone = 12; p.w_droparena = 12; p.owned_pct = 55; p.drop_ty_pct = 45; p.prelude_pct = 15; p.w_detach = 12; p.w_typed = 40; p.w_drop = 35; p.backends = &[(6, Backend::Vec), (2, Backend::Anon), (3, Backend::File)]; p },
+    profile = { let mut p = Profile::base(); p.max_ops = 30; p.w_clone = 12; p.w_droparena = 12; p.owned_pct = 55; p.drop_ty_pct = 45; p.prelude_pct = 15; p.w_detach = 12; p.w_typed = 40; p.w_drop = 35; p.w_reopen = 3; p.reopen_modes = &[(3, 0), (3, 1), (1, 2), (1, 3)]; p.backends = &[(6, Backend::Vec), (2, Backend::Anon), (3, Backend::File)]; p },
     mode = Mode { count_unmount: true, ..Mode::default() },
     nontrivial = |c| c.contains("owned-outlived-original") && c.contains("value-dropped-via-handle"),
     rule = "Engine A 'handles' histories: arena clone/drop (original may go first), every alloc flavour borrowed/owned, detach, drop in any order, drop-counting value types, generated teardown order. Per drop: effect equals exactly one dealloc(buffer_offset, buffer_capacity) (cursor move, or one node inside the extent, or discarded += extent), detached drop changes nothing, value dropped exactly once / not at all when detached, refs() == live arena values + owned handles, Unmount hook event fires exactly once, at the drop that brings the count to zero. Non-trivial = an owned handle outlived the original arena value and a drop-type value was dropped through a handle",
@@ -160,9 +160,14 @@ impl Prop for C18 {
                 c.ops.extend(tail);
                 c
             });
-        // a giant case costs about half a second and a gigabyte (the constructors zero the whole arena)
+        // a giant case zeroes a gigabyte at construction: about a second here, but tens of seconds in a freshly restored
+        // sandbox whose memory has never been touched (the per-case watchdog fired there). The quick tier therefore
+        // relies on the committed giant replay (replays/C18/97d877dfc176dbfc.json); generation is for the thorough tier
+        if tier == Tier::Quick {
+            return <C18A as Prop>::strategy(tier);
+        }
         prop_oneof![
-            24000 => <C18A as Prop>::strategy(tier),
+            20000 => <C18A as Prop>::strategy(tier),
             1 => giant,
         ]
         .boxed()
@@ -182,7 +187,7 @@ impl Prop for C18 {
         <C18A as Prop>::cases(tier)
     }
     fn rule() -> &'static str {
-        concat!("as below, plus one case in 24000 (about 30 per quick run; at most two such cases run at a time) on an arena of 1 GiB or more (Vec / anonymous map) with truncate(4*capacity - k), truncate(2^32 + d) and truncate(capacity + d): for max(n, allocated()) above u32::MAX - where capacity(), a u32, cannot report the value the statement asks for - the call must fail and leave the arena exactly as it was. ", "Engine A histories on unsync::Arena with truncate(n), n around allocated()/capacity() and up to 4x capacity, on Vec/anon/file backends, incl. file arenas reopened writable or copy-on-write; oracle: capacity()==max(n, allocated), allocated/discarded/free list/bytes below allocated unchanged, live ranges intact, afterwards an allocation that fits fresh space must succeed. Non-trivial = a truncate while the free list was non-empty and detached live data existed")
+        concat!("as below, plus - in the thorough tier only; the quick tier replays one committed giant case - one case in 20000 (at most two at a time) on an arena of 1 GiB or more (Vec / anonymous map) with truncate(4*capacity - k), truncate(2^32 + d) and truncate(capacity + d): for max(n, allocated()) above u32::MAX - where capacity(), a u32, cannot report the value the statement asks for - the call must fail and leave the arena exactly as it was. ", "Engine A histories on unsync::Arena with truncate(n), n around allocated()/capacity() and up to 4x capacity, on Vec/anon/file backends, incl. file arenas reopened writable or copy-on-write; oracle: capacity()==max(n, allocated), allocated/discarded/free list/bytes below allocated unchanged, live ranges intact, afterwards an allocation that fits fresh space must succeed. Non-trivial = a truncate while the free list was non-empty and detached live data existed")
     }
     fn assumptions() -> Vec<&'static str> {
         <C18A as Prop>::assumptions()
